@@ -1666,7 +1666,9 @@ impl Element {
         let element = self.0.read();
         let element_name = element.elemname.to_str();
 
-        if let Some(comment) = &self.0.read().comment {
+        // note: the read lock on this element is held for the whole function. All data must be taken from `element`;
+        // locking self.0 again would dead-lock as soon as another thread waits for the write lock in between
+        if let Some(comment) = &element.comment {
             // put the comment on a separate line
             if !inline {
                 Self::serialize_newline_indent(outstring, indent);
@@ -1684,17 +1686,14 @@ impl Element {
         if !element.content.is_empty() {
             outstring.push('<');
             outstring.push_str(element_name);
-            self.serialize_attributes(outstring);
+            Self::serialize_attributes(&element, outstring);
             outstring.push('>');
 
-            match self.content_type() {
-                ContentType::Elements => {
+            match element.elemtype.content_mode() {
+                ContentMode::Sequence | ContentMode::Choice | ContentMode::Bag => {
                     // serialize each sub-element
-                    for subelem in self.sub_elements() {
-                        if for_file.is_none()
-                            || subelem.0.read().file_membership.is_empty()
-                            || subelem.0.read().file_membership.contains(for_file.as_ref().unwrap())
-                        {
+                    for subelem in element.content.iter().filter_map(ElementContent::unwrap_element) {
+                        if Self::is_in_file(&subelem, for_file) {
                             subelem.serialize_internal(outstring, indent + 1, false, for_file);
                         }
                     }
@@ -1704,7 +1703,7 @@ impl Element {
                     outstring.push_str(element_name);
                     outstring.push('>');
                 }
-                ContentType::CharacterData => {
+                ContentMode::Characters => {
                     // write the character data on the same line as the opening tag
                     if let Some(ElementContent::CharacterData(chardata)) = element.content.first() {
                         chardata.serialize_internal(outstring);
@@ -1715,14 +1714,11 @@ impl Element {
                     outstring.push_str(element_name);
                     outstring.push('>');
                 }
-                ContentType::Mixed => {
-                    for item in self.content() {
+                ContentMode::Mixed => {
+                    for item in &element.content {
                         match item {
                             ElementContent::Element(subelem) => {
-                                if for_file.is_none()
-                                    || subelem.0.read().file_membership.is_empty()
-                                    || subelem.0.read().file_membership.contains(for_file.as_ref().unwrap())
-                                {
+                                if Self::is_in_file(subelem, for_file) {
                                     subelem.serialize_internal(outstring, indent + 1, true, for_file);
                                 }
                             }
@@ -1740,9 +1736,20 @@ impl Element {
         } else {
             outstring.push('<');
             outstring.push_str(element_name);
-            self.serialize_attributes(outstring);
+            Self::serialize_attributes(&element, outstring);
             outstring.push('/');
             outstring.push('>');
+        }
+    }
+
+    // is the sub element part of the file that is being serialized? (the lock is only taken once)
+    fn is_in_file(subelem: &Element, for_file: &Option<WeakArxmlFile>) -> bool {
+        match for_file {
+            None => true,
+            Some(file) => {
+                let subelem_locked = subelem.0.read();
+                subelem_locked.file_membership.is_empty() || subelem_locked.file_membership.contains(file)
+            }
         }
     }
 
@@ -1753,8 +1760,7 @@ impl Element {
         }
     }
 
-    fn serialize_attributes(&self, outstring: &mut String) {
-        let element = self.0.read();
+    fn serialize_attributes(element: &ElementRaw, outstring: &mut String) {
         if !element.attributes.is_empty() {
             for attribute in &element.attributes {
                 outstring.push(' ');
